@@ -487,7 +487,7 @@ theorem mkPads_ok (cfg p : Packetizer) (hc : SameCfg cfg p) (s : SeqState) (n : 
   have one : ∀ v, padPkt cfg (mkPad p v) = true := by
     intro v
     simp only [padPkt, mkPad, pad_wire, marshal_len_pad, Bool.true_and, beq_self_eq_true,
-      Bool.or_eq_true, decide_eq_true_eq, hc.2.1.symm, UInt8.lt_iff_toNat_lt]
+      Bool.or_eq_true, decide_eq_true_eq, hc.2.1.symm, hc.2.2, UInt8.lt_iff_toNat_lt]
     have : (128 : UInt8).toNat = 128 := rfl
     omega
   induction n generalizing s with
